@@ -8,6 +8,7 @@ import (
 	"go/types"
 	"strconv"
 	"strings"
+	"time"
 
 	"golang.org/x/tools/go/ssa"
 )
@@ -541,5 +542,18 @@ func (i *interpreter) globalCell(g *ssa.Global) *value {
 func init() {
 	externals["reflect.DeepEqual"] = func(fr *frame, a []value) value {
 		return fr.i.concBool(mkScalar(fr.i.deepEqTerm(a[0], a[1], 0), types.Bool))
+	}
+}
+
+func init() {
+	externals["time.ParseDuration"] = func(fr *frame, a []value) value {
+		d, err := time.ParseDuration(fr.i.concStr(a[0]))
+		if err != nil {
+			return tuple{int64(0), fr.i.mkError(fr, err.Error())}
+		}
+		return tuple{int64(d), iface{}}
+	}
+	externals["(time.Duration).String"] = func(fr *frame, a []value) value {
+		return time.Duration(fr.i.concIntVal(a[0])).String()
 	}
 }
